@@ -22,6 +22,9 @@ type Ctx struct {
 	cur  string // current rule id
 	wp   *whole // lazily built whole-program facts (call graph etc.)
 
+	lf        *lockFacts
+	lres      map[*ssa.Function]*lockResult
+	lentry    map[*ssa.Function]map[lockKey]string
 	silent    bool // engines evaluate without recording (wrapper summaries)
 	wrapCache map[string][]wrapper
 }
@@ -339,3 +342,12 @@ func short(s string) string {
 }
 
 func join(ss []string) string { return strings.Join(ss, ", ") }
+
+// onCache returns a context working on the separately loaded cache module;
+// obligations are recorded in the same run.
+func (c *Ctx) onCache() *Ctx {
+	if c.P.Cache == nil {
+		panic(anchorErr{"cache module program"})
+	}
+	return &Ctx{P: c.P.Cache, R: c.R, Tier: c.Tier, cur: c.cur}
+}
